@@ -2587,6 +2587,92 @@ fn producers(env: &Env, src: &mut Src<'_>) -> CaseResult {
     Ok(CaseOk::new(true, &(t, dg), json!({"type": n, "producer": what})).label(format!("type:{n}")).label(format!("producer:{what}")))
 }
 
+/// The Galois-field types have a second byte-string decoder next to `Serializable::deserialize`:
+/// `TryFrom<&[u8]>` (short slices are zero-extended by its documentation, long ones rejected).
+/// Whatever it accepts is a value that is sent over the wire as is, so: it never panics, the
+/// encoding of an accepted value decodes to that value, and a slice of the full encoding length
+/// is accepted only if `deserialize` accepts the same bytes as the same value (rejecting is
+/// always allowed).
+fn slice_decoders(env: &Env, src: &mut Src<'_>) -> CaseResult {
+    fn go<G>(env: &Env, name: &'static str, src: &mut Src<'_>) -> Result<(usize, &'static str, &'static str, u64), CaseErr>
+    where
+        G: Serializable + PartialEq + std::fmt::Debug + Copy + for<'a> TryFrom<&'a [u8]>,
+    {
+        let size = <G as Serializable>::Size::USIZE;
+        let len = src.idx(size + 2);
+        let class = src.below(6);
+        let mut bytes: Vec<u8> = match class {
+            0 => vec![0; len],
+            1 => vec![0xff; len],
+            _ => src.bytes(len),
+        };
+        let cname = match class {
+            0 => "zero",
+            1 => "ones",
+            2 => "random",
+            3 => {
+                // exactly one bit of the last byte
+                if let Some(l) = bytes.last_mut() {
+                    *l = 1 << src.below(8);
+                }
+                "last-byte-one-bit"
+            }
+            4 => {
+                if let Some(l) = bytes.last_mut() {
+                    *l = src.below(256) as u8;
+                }
+                "last-byte-any"
+            }
+            _ => {
+                for b in bytes.iter_mut().rev().skip(1) {
+                    *b = 0;
+                }
+                "only-last-byte"
+            }
+        };
+        let case = json!({"type": name, "slice": hexs(&bytes), "len": len, "size": size});
+        let r = catch(|| <G as TryFrom<&[u8]>>::try_from(&bytes[..]))
+            .map_err(|(loc, m)| violation(format!("slice-decoder-panics:{name}"), format!("{name}::try_from(&[u8]) of {} bytes panicked at {loc}: {m}", len), case.clone()))?;
+        let Ok(v) = r else {
+            return Ok((len, cname, "rejected", digest(&bytes)));
+        };
+        let mut enc = GenericArray::<u8, <G as Serializable>::Size>::default();
+        v.serialize(&mut enc);
+        match G::deserialize(&enc) {
+            Ok(back) if back == v => {}
+            Ok(back) => {
+                return Err(violation(format!("slice-decoded-value-does-not-roundtrip:{name}"), format!("{name}: slice {} was accepted as {v:?}; its encoding {} decodes to the different value {back:?}", hexs(&bytes), hexs(&enc)), case));
+            }
+            Err(e) => {
+                return Err(violation(format!("slice-decoded-value-does-not-roundtrip:{name}"), format!("{name}: slice {} was accepted as {v:?}, but deserialize rejects the encoding {} of that value: {e}", hexs(&bytes), hexs(&enc)), case));
+            }
+        }
+        if len == size {
+            match G::deserialize(GenericArray::from_slice(&bytes)) {
+                Ok(d) if d == v => {}
+                other => {
+                    return Err(violation(format!("slice-decoder-accepts-noncanonical:{name}"), format!("{name}: the {size}-byte slice {} was accepted as {v:?}, deserialize of the same bytes gives {:?}", hexs(&bytes), other.map_err(|e| e.to_string())), case));
+                }
+            }
+        }
+        Ok((len, cname, "accepted", digest(&bytes)))
+    }
+    const NAMES: [&str; 7] = ["Gf2", "Gf3Bit", "Gf8Bit", "Gf9Bit", "Gf20Bit", "Gf32Bit", "Gf40Bit"];
+    let t = src.idx(7);
+    let n = NAMES[t];
+    let (len, cname, outcome, dg) = match t {
+        0 => go::<Gf2>(env, n, src),
+        1 => go::<Gf3Bit>(env, n, src),
+        2 => go::<Gf8Bit>(env, n, src),
+        3 => go::<Gf9Bit>(env, n, src),
+        4 => go::<Gf20Bit>(env, n, src),
+        5 => go::<Gf32Bit>(env, n, src),
+        _ => go::<Gf40Bit>(env, n, src),
+    }?;
+    Ok(CaseOk::new(len > 0, &(t, len, dg), json!({"type": n, "len": len, "class": cname, "outcome": outcome}))
+        .label(format!("type:{n}")).label(format!("outcome:{outcome}")).label(format!("len:{}", len)).label(format!("class:{cname}")))
+}
+
 pub fn subs(_env: &Env) -> Vec<Sub> {
     let n_small = small_types(3).len() as u64;
     vec![
@@ -2600,6 +2686,8 @@ pub fn subs(_env: &Env) -> Vec<Sub> {
             "every Serializable type (fields, Gf*, BA3..BA256, Fp25519, RP25519, Hash, Seed pairs, UniqueTag, public key, PRF report, semi-honest and malicious shares, StdArray<_,1/16/32/64/256>, hash/proof arrays): canonical encodings of random values with up to three components replaced by boundary encodings {0, p-1, p, p+1, p+small, all-ones, 2^k; max value, one/all/only padding bits; Boolean 2,3,0x80,255; l-1, l, l+1, k*l, 2^252, 2^255; Ristretto identity, basepoint, k*B, odd s, s>=p, high bit, bit-flipped point}, plus all-zero/all-ones/random strings: accept iff canonical by the model (Ristretto: must-reject classes only), accepted strings re-encode to themselves, no panic; non-trivial = non-canonical or non-zero"),
         Sub::random("producers", 600, 300_000, 6_000_000, producers,
             "values produced by the crate's own operations on BA3..BA256 - expand, !, +, -, *, * Boolean, neg, from_fn, from_iter, try_from(&BitSlice), and expand / ! of shares - from all-zero / all-one / random operands: the produced value equals, and encodes exactly like, the value built bit by bit (padding zero), and the decoder accepts it"),
+        Sub::random("slice_decoders", 16, 60_000, 2_000_000, slice_decoders,
+            "the second byte-string decoder of the Galois-field types, TryFrom<&[u8]>, for Gf2/3/8/9/20/32/40 over slices of every length 0..=Size+1 filled with {zero, ones, random, one bit / any value in the last byte, only the last byte}: never panics; the encoding of an accepted value is accepted by deserialize and returns that value; a slice of the full encoding length is accepted only if deserialize accepts the same bytes as the same value (rejection is always allowed); non-trivial = non-empty slice"),
         Sub::random("roundtrip", 200, 800_000, 15_000_000, roundtrip,
             "every type of the table: a value built through the public constructors (truncate_from of boundary-biased integers, bit-by-bit collection, Scalar/basepoint multiples, hashing, FromRandom, share and array constructors) encodes to the reference bytes (little-endian integer, components concatenated), serialize overwrites all Size bytes, and the encoding decodes to the same value; non-trivial = some non-zero byte"),
         Sub::random("transposes", 64, 40_000, 1_000_000, transposes,
